@@ -63,6 +63,34 @@ fn op_text(o: &Op) -> String {
     }
 }
 
+fn op_json(o: &Op) -> Value {
+    match o {
+        Op::Add { ctx, name, src } => json!({"op": "add", "ctx": ctx, "name": name, "src": src}),
+        Op::Bind { b, var, val } => json!({"op": "bind", "b": b, "var": var, "val": super::c03::vjson(val)}),
+        Op::CloneCtx { ctx } => json!({"op": "clone-ctx", "ctx": ctx}),
+        Op::CloneBind { b } => json!({"op": "clone-bind", "b": b}),
+        Op::Exec { ctx, name, b, twice } => json!({"op": "exec", "ctx": ctx, "name": name, "b": b, "twice": twice}),
+        Op::Inspect { ctx, name, b } => json!({"op": "inspect", "ctx": ctx, "name": name, "b": b}),
+        Op::DropCtx { ctx } => json!({"op": "drop-ctx", "ctx": ctx}),
+        Op::DropBind { b } => json!({"op": "drop-bind", "b": b}),
+    }
+}
+
+fn op_unjson(j: &Value) -> Option<Op> {
+    let u = |k: &str| j.get(k).and_then(|x| x.as_u64()).map(|x| x as usize);
+    Some(match j.get("op")?.as_str()? {
+        "add" => Op::Add { ctx: u("ctx")?, name: u("name")? % PROG_NAMES.len(), src: j.get("src")?.as_str()?.to_string() },
+        "bind" => Op::Bind { b: u("b")?, var: j.get("var")?.as_str()?.to_string(), val: super::c03::vunjson(j.get("val")?)? },
+        "clone-ctx" => Op::CloneCtx { ctx: u("ctx")? },
+        "clone-bind" => Op::CloneBind { b: u("b")? },
+        "exec" => Op::Exec { ctx: u("ctx")?, name: u("name")? % PROG_NAMES.len(), b: u("b")?, twice: j.get("twice")?.as_bool()? },
+        "inspect" => Op::Inspect { ctx: u("ctx")?, name: u("name")? % PROG_NAMES.len(), b: u("b")? },
+        "drop-ctx" => Op::DropCtx { ctx: u("ctx")? },
+        "drop-bind" => Op::DropBind { b: u("b")? },
+        _ => return None,
+    })
+}
+
 fn res_text(r: &Result<Result<CelValue, CelError>, crate::engine::PanicInfo>) -> String {
     match r {
         Ok(Ok(v)) => canon_cel(v),
@@ -120,12 +148,13 @@ fn run_history(ops: &[Op], sub: &str, acc: &mut Acc) -> Vec<Failure> {
     let mut nontrivial = false;
     let mut trace: Vec<String> = Vec::new();
     let history: Vec<String> = ops.iter().map(op_text).collect();
+    let ops_json: Vec<Value> = ops.iter().map(op_json).collect();
     let mut out: Vec<Failure> = Vec::new();
     let fail = |sig: &str, what: String, step: usize, trace: &Vec<String>| {
         Failure::new(
             format!("c11:{}", sig),
             what,
-            json!({"kind": "history", "ops": history, "failed_at_step": step, "trace": trace}),
+            json!({"kind": "history", "ops": history, "ops_json": ops_json, "failed_at_step": step, "trace": trace}),
         )
     };
     for (step, op) in ops.iter().enumerate() {
@@ -555,7 +584,19 @@ fn replay(_opts: &Opts, d: &Value, acc: &mut Acc) {
         }
         return;
     }
-    acc.inconclusive.push("C11 replay needs a genome (random histories) — grid histories are re-enumerated by every run".into());
+    if let Some(arr) = d.get("ops_json").and_then(|a| a.as_array()) {
+        let ops: Option<Vec<Op>> = arr.iter().map(op_unjson).collect();
+        match ops {
+            Some(ops) => {
+                for f in run_history(&ops, "replay", acc) {
+                    acc.fail(f);
+                }
+            }
+            None => acc.inconclusive.push("C11 replay: unreadable ops_json".into()),
+        }
+        return;
+    }
+    acc.inconclusive.push("C11 replay needs ops_json, a genome or a threads case".into());
 }
 
 /// libFuzzer entry: one generated history
